@@ -393,6 +393,12 @@ ReturnStep ==
                 /\ ~f.q => /\ Drift(f.tried # {}, "ordinary-return-without-a-move", [ply |-> f.ply])
                            /\ Drift(E.v[2] = bound, "bound-kind", [ply |-> f.ply, logged |-> E.v[2], spec |-> bound])
                            /\ Drift(Len(E.m) = 1 /\ E.m[1] \in f.tried, "best-move-field", [ply |-> f.ply])
+                \* quiescence that ran through its whole list: every legal capture and queen promotion was searched
+                \* (judged where the legal set has been computed, i.e. in nodes that searched at least one move)
+                /\ (f.q /\ ~f.cut /\ f.legal # {-1}) =>
+                      LET loud == {m \in f.legal : m \div 32768 \in {1, 2} \/ (m \div 4096) % 8 = 5}
+                      IN  Viol(loud \subseteq f.tried, "C10", "capture-or-queen-promotion-not-searched-in-quiescence",
+                               [fen |-> FenOf(f.pos), root |-> FenOf(rootpos), missing |-> loud \ f.tried])
                 /\ Set([f EXCEPT !.last = "O", !.lv = <<E.v[1], E.v[2], 0>>])
                 /\ rootlines' = IF f.ply = 0 THEN rootlines \cup {f.pv} ELSE rootlines
        ELSE UNCHANGED <<st, rootlines>>
